@@ -4123,6 +4123,8 @@ pub open spec fn skip_ends(t: Seq<NodeEdge>, j: int) -> int
     }
 }
 
+#[verifier::spinoff_prover]
+#[verifier::rlimit(100)]
 pub proof fn lemma_skip_ends(t: Seq<NodeEdge>, j: int)
     // @props C09
     requires
@@ -4152,6 +4154,8 @@ pub proof fn lemma_skip_ends(t: Seq<NodeEdge>, j: int)
 }
 
 /// `first_start` from position j of the tour of root lands on the first Start at or after j
+#[verifier::spinoff_prover]
+#[verifier::rlimit(100)]
 pub proof fn lemma_first_start_on_tour<T>(s: Seq<Node<T>>, w: Ranks, root: NodeId, j: int)
     // @props C09
     requires
@@ -4208,6 +4212,8 @@ pub open spec fn desc_pos<T>(s: Seq<Node<T>>, w: Ranks, root: NodeId, k: nat) ->
 }
 
 /// one call of `Descendants::next` at tour position j: what it returns and where it leaves the state
+#[verifier::spinoff_prover]
+#[verifier::rlimit(100)]
 pub proof fn lemma_desc_call<T>(s: Seq<Node<T>>, w: Ranks, root: NodeId, j: int)
     // @props C09
     requires
@@ -4264,6 +4270,8 @@ pub proof fn lemma_desc_call<T>(s: Seq<Node<T>>, w: Ranks, root: NodeId, j: int)
     }
 }
 
+#[verifier::spinoff_prover]
+#[verifier::rlimit(100)]
 pub proof fn lemma_desc_pos<T>(s: Seq<Node<T>>, w: Ranks, root: NodeId, k: nat)
     // @props C09
     requires
@@ -4308,6 +4316,8 @@ pub proof fn lemma_desc_pos<T>(s: Seq<Node<T>>, w: Ranks, root: NodeId, k: nat)
 
 /// C09: `node.descendants(arena)` yields exactly the depth-first pre-order of the subtree of the
 /// node (the Start edges of its tour, in order) and then None forever
+#[verifier::spinoff_prover]
+#[verifier::rlimit(100)]
 pub proof fn lemma_descendants_is_preorder<T>(s: Seq<Node<T>>, w: Ranks, root: NodeId, k: nat)
     // @props C09
     requires
